@@ -270,6 +270,19 @@ IterIsCanonRestricted ==
     \A r \in Replicas :
         Iter(rep[r]) = RestrictSeq(CanonOrder(Root, StoreSet(rep[r])), TreeSet(rep[r]))
 
+\* Storage.GetAfterAddSeq(n) / ObjectTree.IterateAfterAddSeq(n): the view of a consumer that remembers
+\* the last addition it processed = the changes stored by later additions, sorted by order id.  Which
+\* changes those are depends on the arrival history (deliberately not part of the state); whatever
+\* set S it is, the view is the stored sequence restricted to S
+AddSeqView(st, S) == RestrictSeq(st.store, S)
+\* ... hence, like every other view, the full canonical order restricted to what it contains
+AddSeqViewIsRestriction ==
+    \A r \in Replicas :
+        LET full == CanonOrder(Root, StoreSet(rep[r]))
+        IN \A S \in SUBSET StoreSet(rep[r]) :
+               /\ AddSeqView(rep[r], S) = RestrictSeq(full, S)
+               /\ IsLinearExtension(AddSeqView(rep[r], S))
+
 \* both orders respect causality
 CausalOrder ==
     \A r \in Replicas : IsLinearExtension(rep[r].store) /\ IsLinearExtension(Iter(rep[r]))
@@ -310,8 +323,8 @@ SnapshotDominates ==
         /\ Snap(c) \in Anc(c) /\ IsSnap(Snap(c))
         /\ \A a \in Anc(c) : Snap(c) \in AncEq(a) \/ a \in Anc(Snap(c))
 
-Inv == TypeOK /\ Closed /\ PathIsActual /\ Unambiguous /\ StoreOrderIsCanon /\ IterIsCanonRestricted /\ CausalOrder
-       /\ ArrivalIndependent /\ ReopenEqualsLive /\ HeadsAreMaximal /\ SnapshotDominates
+Inv == TypeOK /\ Closed /\ PathIsActual /\ Unambiguous /\ StoreOrderIsCanon /\ IterIsCanonRestricted /\ AddSeqViewIsRestriction
+       /\ CausalOrder /\ ArrivalIndependent /\ ReopenEqualsLive /\ HeadsAreMaximal /\ SnapshotDominates
 
 \* when an addition reports Append, the previously presented sequence is a prefix of the new one;
 \* stored order ids are never renumbered (the old stored order is a sub-sequence of the new one)
